@@ -137,14 +137,9 @@ def sensitivity(only=None, tier="quick", run_suite=None):
             continue
         root = tempfile.mkdtemp(prefix="zcsim-mut-")
         try:
-            shutil.copytree(os.path.join(boot.REPO, "src"),
-                            os.path.join(root, "src"),
-                            ignore=shutil.ignore_patterns("__pycache__"))
-            for extra in ("pyproject.toml", "setup.py", "setup.cfg",
-                          "tox.ini", "conftest.py"):
-                src = os.path.join(boot.REPO, extra)
-                if os.path.exists(src):
-                    shutil.copy(src, root)
+            os.rmdir(root)
+            shutil.copytree(boot.REPO, root, ignore=shutil.ignore_patterns(
+                "__pycache__", ".git", "*.egg-info", ".tox", "build"))
             try:
                 apply_mutant(root, m)
             except ValueError as e:
@@ -184,7 +179,7 @@ def suite_status(root):
     env.pop("PYTHONHASHSEED", None)
     p = subprocess.run(
         [sys.executable, "-m", "pytest", "-q", "-p", "no:cacheprovider",
-         "-x", "--timeout=900", "--deselect",
+         "--timeout=900", "--deselect",
          "src/ZConfig/tests/test_validator.py::TestValidator::"
          "test_schema_only", os.path.join(root, "src")],
         cwd=root, env=env, capture_output=True, text=True, timeout=1800)
